@@ -61,7 +61,10 @@ func Explore(ctx *core.Ctx, rep *core.Report, opt Options, visit func(*State)) {
 			return
 		}
 		rep.Inc("accepted")
-		visit(&State{Seed: sd, Path: path, DER: cp, Hash: h, Obj: o})
+		st := &State{Seed: sd, Path: path, DER: cp, Hash: h, Obj: o}
+		core.Enter(sd.Kind.String(), st.Replay)
+		visit(st)
+		core.Leave()
 	}
 	for i := range opt.Seeds {
 		sd := &opt.Seeds[i]
